@@ -3,7 +3,7 @@ import SleapVerif.Model.Oks
 /-! Driver for C15 (one op per line → one output line).
 
 * `oks <coco> <eps> <sds:list rat> <gts:list (scale:orat, pts:list (orat orat))> <prs:list (pts)>`
-    → `ok <n_gt> <n_pr> v…` row-major, the generic model run at `Float` with `Float.exp`
+    → `<asis:ok|raise> <n_gt> <n_pr> v…` row-major, the generic model run at `Float` with `Float.exp`
       (`nan` = NaN), values as IEEE bit patterns
 * `area <pts>` → exact `Rat` bbox area or `nan`
 * `nvis <pts>` → number of visible points
@@ -38,7 +38,9 @@ def handle (line : String) : String :=
     | some (coco, eps, sds, gts, prs) =>
       let m := oksMatrix (R := Float) Float.exp coco (toF eps) (sds.map toF)
         (gts.map (fun g => (g.1.map toF, g.2.map ptF))) (prs.map (·.map ptF))
-      s!"ok {gts.length} {prs.length} " ++ " ".intercalate (m.flatten.map ofloatStr)
+      let asis := match oksMatrixAsIs (R := Rat) (fun _ => 0) coco eps sds gts prs with
+        | none => "raise" | some _ => "ok"
+      s!"{asis} {gts.length} {prs.length} " ++ " ".intercalate (m.flatten.map ofloatStr)
     | none => "bad-op"
   | "area" :: rest =>
     match runP pts rest with
